@@ -29,7 +29,9 @@ func allMethodConfigs(thorough bool) []methSpec {
 	}
 	l = append(l, methSpec{kind: mCG, variant: -1})
 	l = append(l, methSpec{kind: mNM}, methSpec{kind: mNM, simplex: true}, methSpec{kind: mNM, simplex: true, nmParams: true}, methSpec{kind: mNM, nmParams: true})
-	l = append(l, methSpec{kind: mCMA, cmaChol: true}, methSpec{kind: mCMA, cmaStep: true, cmaChol: true, forget: true})
+	l = append(l, methSpec{kind: mCMA, cmaChol: true}, methSpec{kind: mCMA, cmaStep: true, cmaChol: true, forget: true}, methSpec{kind: mCMA, cmaStop: true})
+	l = append(l, methSpec{kind: mCG, variant: 2, cgRestart: 1}, methSpec{kind: mCG, variant: 0, cgRestart: 2, ls: 2}, methSpec{kind: mNewton, newtonInc: 1}, methSpec{kind: mNewton, newtonInc: 2, ls: 3, lsParam: 2})
+	l = append(l, methSpec{kind: mLS, rows: 7, locsT: true}, methSpec{kind: mGD, stepSizer: 4, ls: 1, lsParam: 2}, methSpec{kind: mCG, variant: 1, stepSizer: 5, ls: 2, lsParam: 2})
 	for _, pop := range []int{0, 3} {
 		l = append(l, methSpec{kind: mCMA, pop: pop}, methSpec{kind: mCMA, pop: pop, forget: true})
 	}
@@ -65,7 +67,9 @@ func gridCases(thorough bool) []*caseSpec {
 					add(m, setSpec{limH: v}, dim)
 				}
 			}
-			add(m, setSpec{runtime: true}, dim)
+			add(m, setSpec{runtime: 1}, dim)
+			add(m, setSpec{runtime: 3, limMaj: 20}, dim)
+			add(m, setSpec{rec: -3}, dim)
 			for init := 1; init <= 3; init++ {
 				add(m, setSpec{init: init}, dim)
 				add(m, setSpec{init: init, limF: 1}, dim)
@@ -186,6 +190,16 @@ func randomMethod(r *vrt.Rand) methSpec {
 	m.nmParams = r.Chance(0.3)
 	m.cmaChol = r.Chance(0.3)
 	m.cmaStep = r.Chance(0.3)
+	m.cmaStop = r.Chance(0.2)
+	m.cgRestart = r.PickInt(0, 0, 1, 2)
+	m.newtonInc = r.Intn(3)
+	m.locsT = r.Bool()
+	if r.Chance(0.3) {
+		m.lsParam = 2
+	}
+	if r.Chance(0.2) {
+		m.stepSizer = 4 + r.Intn(2)
+	}
 	m.gradStop = r.PickInt(0, 0, 0, 1, 2)
 	return m
 }
@@ -216,7 +230,7 @@ func randomSettings(r *vrt.Rand, m methSpec) setSpec {
 		s.limH = pickLimit(r)
 	}
 	if r.Chance(0.05) {
-		s.runtime = true
+		s.runtime = r.PickInt(1, 1, 3)
 	}
 	switch r.Intn(6) {
 	case 0:
@@ -243,7 +257,7 @@ func randomSettings(r *vrt.Rand, m methSpec) setSpec {
 	}
 	switch r.Intn(8) {
 	case 0:
-		s.rec = -2
+		s.rec = r.PickInt(-2, -3)
 	case 1:
 		s.rec = 1 + r.Intn(12)
 		s.recOnce = r.Bool()
@@ -265,7 +279,7 @@ func ensureBounded(r *vrt.Rand, cs *caseSpec, p float64) {
 	if !cs.unlimitedIsInDomain() || cs.obj.quad == nil && cs.obj.name != "bowl" || cs.s.limG > 0 && cs.s.limF == 0 && cs.s.limMaj == 0 && !cs.m.usesGrad() {
 		p = 1
 	}
-	if cs.s.limF == 0 && cs.s.limMaj == 0 && !cs.s.runtime && cs.s.cbK == 0 && !(cs.s.rec > 0) && r.Chance(p) {
+	if cs.s.limF == 0 && cs.s.limMaj == 0 && !cs.s.runtimeStops() && cs.s.cbK == 0 && !(cs.s.rec > 0) && r.Chance(p) {
 		cs.s.limF = 200 + r.Intn(800)
 	}
 }
@@ -457,4 +471,29 @@ func randomHistory(r *vrt.Rand) []*caseSpec {
 		hist = append(hist, cs)
 	}
 	return hist
+}
+
+// runtimeCases: Settings.Runtime = 20ms while the sleepAt-th Func call blocks
+// for 50ms; NeverTerminate and a FuncEvaluations safety net are the only other
+// rules. With and without a Recorder, one and four tasks.
+func runtimeCases() []*caseSpec {
+	var cases []*caseSpec
+	for _, m := range allMethodConfigs(false) {
+		if m.linesearch() && m.ls != 0 || m.cmaStop {
+			continue
+		}
+		for _, rec := range []int{0, -2} {
+			for _, conc := range []int{0, 4} {
+				for _, k := range []int{1, 3} {
+					if conc == 4 && m.local() && k == 3 {
+						continue
+					}
+					cs := &caseSpec{group: "runtime", m: m, obj: simpleBowl(2), seed: uint64(700000 + len(cases))}
+					cs.s = setSpec{runtime: 2, sleepAt: k, conv: 1, limF: 3000, rec: rec, concurrent: conc}
+					cases = append(cases, cs)
+				}
+			}
+		}
+	}
+	return cases
 }
